@@ -71,6 +71,32 @@ for k in range(0, 9):
             continue
         HS.append(_list(k, d, k <= 4))
 
+def _mc(tier, recs):
+    import re
+    per_op, spines = {}, set()
+    for h, r in recs:
+        m = re.match(r"(\w+?)_all_shapes_n(\d+)(?:_l(\d+))?$", h.name)
+        if m:
+            n, l0 = int(m.group(2)), m.group(3)
+            ss = [tuple(x) for x in shapes(n) if l0 is None or (x and x[0] == int(l0))]
+            per_op.setdefault(m.group(1), set()).update(ss)
+            continue
+        m = re.match(r"(\w+?)(_pool)?_shape_(\d+)_(\w+)$", h.name)
+        if m:
+            ls = tuple(int(c) for c in m.group(4)) if m.group(4) != "empty" else ()
+            per_op.setdefault(m.group(1) + (m.group(2) or ""), set()).add(ls)
+            continue
+        m = re.match(r"iter_list_(left|right)_k(\d+)$", h.name)
+        if m:
+            spines.add((m.group(1), int(m.group(2))))
+    allshapes = set().union(*per_op.values()) if per_op else set()
+    trans = sum(len(v) for v in per_op.values()) + len(spines)
+    return {"states": len(allshapes) + len(spines), "transitions": trans, "traces_validated_against_impl": trans,
+            "rule_model_checking": "states = distinct tree shapes (node count + left-subtree sizes) and list spines realised in memory by discharged harnesses of this run; "
+                                   "transitions = (operation, shape) pairs, i.e. runs of one real iterator / bintree_free variant to completion on one shape; every one of them is an execution "
+                                   "of the real /repo code inside CBMC (there is no separate model), hence traces_validated_against_impl = transitions",
+            "shapes_per_operation": {k: len(v) for k, v in sorted(per_op.items())}, "exhaustive": True}
+
 prop("C11", "model_checking",
      "Harness-enforced contracts on the real bintree.c iterators and bintree_free over a bounded universe of tree shapes (DESIGN P4), enumerated exhaustively: an abstract shape is the "
      "node count and the size of every node's left subtree; the harness realises it in memory, runs the real code and checks the statement's postconditions - the iterator returns each "
@@ -79,7 +105,7 @@ prop("C11", "model_checking",
      "deallocator once, children first, and clear the parent's link. In the malloc variant the deallocator stub really free()s each node (own malloc object), so CBMC's dereference "
      "checks are the 'never reads a node after deallocation' obligation. In-order and pre-order: all shapes of one node count in one query (concrete enumeration inside the harness). "
      "Post-order and free keep a mark in bit 0 of a pointer, which CBMC cannot constant-fold, so they are one query per shape.",
-     HS, jobs=10,
+     HS, jobs=10, mc=_mc,
      trusted=["CBMC models of malloc/free (deallocated-object tracking)"],
      assumptions=["nodes are at least 2-byte aligned (pool nodes are naturally aligned): the post-order iterator keeps a mark in bit 0 of the left pointer",
                   "bintree.c is not part of the library build; the harness includes it directly",
